@@ -92,6 +92,36 @@ Proof.
     + injection H as <- <-. unfold alt_post. cbn. repeat split; auto. intro acc. rewrite E. reflexivity.
 Qed.
 
+Lemma forallb_andb {A} (f g : A -> bool) l : forallb (fun x => f x && g x) l = forallb f l && forallb g l.
+Proof.
+  induction l as [|x l IH]; [reflexivity|]. cbn [forallb]. rewrite IH.
+  destruct (f x), (g x), (forallb f l), (forallb g l); reflexivity.
+Qed.
+
+(* an alternative all of whose schemes found credentials and one of which rejected them ends in an error *)
+Lemma run_schemes_norej out l : forall lst missing t res,
+  run_schemes out l lst missing = (t, res) -> a_err res = None ->
+  forallb (fun s => negb (is_na (out (sname s) (sscopes s)))) l = true ->
+  existsb (fun s => is_rej (out (sname s) (sscopes s))) l = false.
+Proof.
+  induction l as [|s r IH]; intros lst missing t res H E F; [reflexivity|].
+  cbn [run_schemes] in H. cbn [forallb] in F. apply andb_true_iff in F. destruct F as [F1 F2].
+  cbn [existsb]. destruct (out (sname s) (sscopes s)) eqn:O.
+  - discriminate.
+  - destruct (run_schemes out r p _) as [t' res'] eqn:R. injection H as <- <-. cbn [is_rej orb].
+    eapply IH; [exact R|exact E|exact F2].
+  - injection H as <- <-. discriminate.
+Qed.
+
+Lemma auth_alt_norej out l t res :
+  auth_alt out (Reqs l) = (t, res) -> a_err res = None -> presented_and_rejected out l = false.
+Proof.
+  cbn [auth_alt]. unfold presented_and_rejected. rewrite forallb_andb. destruct (forallb sreg l); [|reflexivity].
+  intros H E. cbn [andb].
+  destruct (forallb (fun s => negb (is_na (out (sname s) (sscopes s)))) l) eqn:F; [|reflexivity].
+  cbn [andb]. eapply run_schemes_norej; [exact H|exact E|exact F].
+Qed.
+
 (* a principal comes out only when every scheme accepted with one; it is the one of the scheme evaluated last *)
 Definition last_scheme_yields (out : oracle) (l : list sreq) (q : principal) : Prop :=
   match l with
@@ -133,11 +163,6 @@ Proof.
 Qed.
 
 
-Lemma forallb_andb {A} (f g : A -> bool) l : forallb (fun x => f x && g x) l = forallb f l && forallb g l.
-Proof.
-  induction l as [|x l IH]; [reflexivity|]. cbn [forallb]. rewrite IH.
-  destruct (f x), (g x), (forallb f l), (forallb g l); reflexivity.
-Qed.
 
 Definition alt_some_post (out : oracle) (l : list sreq) (q : principal) : Prop :=
   satisfied out l = true /\ yields out l q = true /\ last_scheme_yields out l q.
@@ -166,7 +191,7 @@ Definition or_post (out : oracle) (alts : list alt) (lastErr : option err) (anon
     match o_usr res with
     | Some q => o_applies res = true /\
                 exists l, In (Reqs l) alts /\ o_route res = Some (Reqs l) /\ alt_some_post out l q
-    | None => last_rej out t lastErr = None /\
+    | None => last_rej out t lastErr = None /\ rejected_declared out alts = false /\
               (o_applies res = true -> (anon = Some Anon \/ allows_anon alts = true) /\ o_route res = Some Anon)
     end
   end.
@@ -179,15 +204,15 @@ Proof.
   - cbn [auth_alts_from] in H. unfold or_post.
     destruct anon as [a0|]; [destruct lastErr as [e|]|destruct lastErr as [e|]]; injection H as <- <-; cbn.
     + auto.
-    + split; [reflexivity|]. split; [reflexivity|]. intros _. destruct Han as [Han|Han]; [discriminate|].
+    + split; [reflexivity|]. split; [reflexivity|]. split; [reflexivity|]. intros _. destruct Han as [Han|Han]; [discriminate|].
       injection Han as ->. auto.
     + auto.
-    + split; [reflexivity|]. split; [reflexivity|]. discriminate.
+    + split; [reflexivity|]. split; [reflexivity|]. split; [reflexivity|]. discriminate.
   - cbn [auth_alts_from] in H. destruct a as [|l]; cbn [is_anon] in H.
     + apply IH in H; [|now right]. unfold or_post in *. destruct H as [H1 H2]. split; [exact H1|].
       destruct (o_err res) as [e|]; [exact H2|]. destruct (o_usr res) as [q|].
       * destruct H2 as (A & l & B & C). split; [exact A|]. exists l. split; [now right|exact C].
-      * destruct H2 as (A & B). split; [exact A|]. intro Ap. destruct (B Ap) as [_ B2]. split; [|exact B2].
+      * destruct H2 as (A & RD & B). split; [exact A|]. split; [exact RD|]. intro Ap. destruct (B Ap) as [_ B2]. split; [|exact B2].
         right. reflexivity.
     + destruct (auth_alt out (Reqs l)) as [t1 res1] eqn:A1.
       destruct (auth_alt_post _ _ _ _ A1) as [P1 P2]. unfold alt_post in P1. destruct P1 as [O1 P1].
@@ -201,7 +226,11 @@ Proof.
         rewrite last_rej_app, LR.
         destruct (o_err res') as [e|]; [exact R2|]. destruct (o_usr res') as [q|].
         -- destruct R2 as (A & l' & B & C'). split; [exact A|]. exists l'. split; [now right|exact C'].
-        -- destruct R2 as (A & B). split; [exact A|]. intro Ap. destruct (B Ap) as [[B1|B1] B2]; split; auto.
+        -- destruct R2 as (A & RD & B). split; [exact A|]. split.
+           ++ assert (E1 : a_err res1 = None).
+              { apply last_rej_none in A. destruct A as [A _]. destruct (a_err res1); [discriminate|reflexivity]. }
+              unfold rejected_declared. cbn [existsb]. rewrite (auth_alt_norej _ _ _ _ A1 E1). exact RD.
+           ++ intro Ap. destruct (B Ap) as [[B1|B1] B2]; split; auto.
       * injection H as <- <-. apply orb_false_iff in C. destruct C as [C C3]. apply orb_false_iff in C.
         destruct C as [C1 C2]. destruct (a_err res1) as [e|]; [discriminate|].
         destruct (a_usr res1) as [q|] eqn:U; [|discriminate]. destruct P1 as (_ & _ & P).
@@ -286,11 +315,11 @@ Proof. intro H. rewrite <- (app_nil_r t). rewrite az_called_app_only_auth; [refl
 Lemma handle_justified_ext out alts az tr tr' p sc :
   rejected_in out tr = rejected_in out tr' ->
   handle_justified out alts az tr p sc = handle_justified out alts az tr' p sc.
-Proof. intro H. unfold handle_justified. now rewrite H. Qed.
+Proof. intro H. unfold handle_justified, nothing_rejected. now rewrite H. Qed.
 
 Lemma admissible_ext out alts az tr tr' :
   rejected_in out tr = rejected_in out tr' -> admissible out alts az tr = admissible out alts az tr'.
-Proof. intro H. unfold admissible. now rewrite H. Qed.
+Proof. intro H. unfold admissible, nothing_rejected. now rewrite H. Qed.
 
 Lemma handle_justified_admissible out alts az tr p sc :
   handle_justified out alts az tr p sc = true -> admissible out alts az tr = true.
@@ -312,7 +341,7 @@ Lemma authorize_ok_model out alts az t r :
   pre_ok t = true /\
   match r with
   | Granted p sc => handle_justified out alts az t p sc = true
-  | Refused e => refusal_ok out az t e = true
+  | Refused e => refusal_ok out alts az t e = true
   | AuthPanic => False
   end.
 Proof.
@@ -341,27 +370,29 @@ Proof.
       destruct az as [f|].
       * destruct (f (Some q)) as [e'|] eqn:F.
         -- destruct e' as [c m|m]; intro H; injection H as <- <-; (split; [apply Pre1|]);
-             unfold refusal_ok, expected_refusal; rewrite AzC, F; apply err_eqb_refl.
+             unfold refusal_ok, expected_refusal; rewrite AzC, F; cbn [is_some orb]; apply err_eqb_refl.
         -- intro H. injection H as <- <-. split; [apply Pre1|]. apply J. unfold az_accepts. now rewrite F.
       * intro H. injection H as <- <-. split; [exact Pre0|]. now apply J.
-    + destruct A as (L & An). apply last_rej_none in L. destruct L as [_ NR].
+    + destruct A as (L & RD & An). apply last_rej_none in L. destruct L as [_ NR].
+      assert (NRj : forall p, nothing_rejected out alts (t0 ++ [AuthorizerCalled p]) = true).
+      { intro p. unfold nothing_rejected. now rewrite Rj, NR, RD. }
       destruct (o_applies res) eqn:Ap.
       * (* admitted by the anonymous alternative *)
         destruct (An eq_refl) as [[An1|An1] Hr]; [discriminate|]. rewrite An1, Hr. cbn [negb orb is_some andb all_scopes].
         assert (J : forall tr, rejected_in out tr = false -> az_accepts az None = true ->
                                handle_justified out alts az tr None [] = true).
-        { intros tr R Az. unfold handle_justified. rewrite An1, R, Az. reflexivity. }
+        { intros tr R Az. unfold handle_justified, nothing_rejected. rewrite An1, R, RD, Az. reflexivity. }
         destruct az as [f|].
         -- destruct (f None) as [e'|] eqn:F.
            ++ destruct e' as [c m|m]; intro H; injection H as <- <-; (split; [apply Pre1|]);
-                unfold refusal_ok, expected_refusal; rewrite AzC, F; apply err_eqb_refl.
+                unfold refusal_ok, expected_refusal; rewrite AzC, F, NRj; cbn [is_some orb]; apply err_eqb_refl.
            ++ intro H. injection H as <- <-. split; [apply Pre1|]. apply J; [now rewrite Rj|].
               unfold az_accepts. now rewrite F.
         -- intro H. injection H as <- <-. split; [exact Pre0|]. now apply J.
       * (* nothing applied *)
         cbn [negb orb]. intro H. injection H as <- <-. split; [exact Pre0|].
         unfold refusal_ok, expected_refusal. rewrite (az_called_only_auth _ O).
-        rewrite (last_rej_norej _ _ _ NR). reflexivity.
+        rewrite (last_rej_norej _ _ _ NR), RD. reflexivity.
 Qed.
 
 Theorem authorize_satisfies_property out alts az :
@@ -382,7 +413,8 @@ Proof.
   - destruct (o_usr res) as [q|].
     + destruct A as (Ap & l & Hin & _ & S & Y & _). rewrite Ap. cbn [andb]. apply existsb_exists.
       exists (Reqs l). split; [exact Hin|]. now rewrite S, Y.
-    + destruct A as (L & An). apply last_rej_none in L. destruct L as [_ NR]. rewrite NR. cbn [negb andb].
+    + destruct A as (L & RD & An). apply last_rej_none in L. destruct L as [_ NR].
+      unfold nothing_rejected. rewrite NR, RD. cbn [negb andb].
       destruct (o_applies res); [|reflexivity]. destruct (An eq_refl) as [[An1|An1] _]; [discriminate|exact An1].
 Qed.
 
@@ -402,16 +434,17 @@ Proof.
   rewrite E. reflexivity.
 Qed.
 
-Lemma expected_refusal_app out az t t' :
-  existsb is_az t' = false -> no_auth t' = true ->
-  expected_refusal out az (t ++ t') = expected_refusal out az t.
-Proof.
-  intros H1 H2. unfold expected_refusal. rewrite az_called_app_noaz by exact H1.
-  rewrite last_rej_app, (last_rej_no_auth _ _ _ H2). reflexivity.
-Qed.
-
 Lemma rejected_in_app_no_auth out t t' : no_auth t' = true -> rejected_in out (t ++ t') = rejected_in out t.
 Proof. intro H. rewrite rejected_in_app, (rejected_in_no_auth _ _ H). apply orb_false_r. Qed.
+
+Lemma expected_refusal_app out alts az t t' :
+  existsb is_az t' = false -> no_auth t' = true ->
+  expected_refusal out alts az (t ++ t') = expected_refusal out alts az t.
+Proof.
+  intros H1 H2. unfold expected_refusal, nothing_rejected. rewrite az_called_app_noaz by exact H1.
+  rewrite last_rej_app, (last_rej_no_auth _ _ _ H2), (rejected_in_app_no_auth _ _ _ H2). reflexivity.
+Qed.
+
 
 Theorem secure_handler_satisfies_property out alts az b :
   sec_ok out alts az b true (secure_handler out alts az b) = true.
@@ -448,7 +481,7 @@ Proof.
     rewrite existsb_app, NH. cbn [existsb is_handle orb negb andb].
     unfold responded. rewrite last_app_single. unfold response_ok.
     rewrite expected_refusal_app by reflexivity.
-    unfold refusal_ok in H. destruct (expected_refusal out az t) as [[e'|]|]; [| |discriminate].
+    unfold refusal_ok in H. destruct (expected_refusal out alts az t) as [[e'|]|]; [| |discriminate].
     + apply err_eqb_eq in H. subst e'. now rewrite !Nat.eqb_refl.
     + exact H.
 Qed.
@@ -503,6 +536,34 @@ Proof.
     destruct (out s scopes) eqn:E; try discriminate. exfalso. exact (H _ _ _ Hev E).
 Qed.
 
+(* no alternative for which the request presented all credentials (every scheme has an authenticator and found
+   its credentials) had a scheme rejecting them - over the declared structure, whatever was actually asked *)
+Definition none_rejected_declared (out : oracle) (alts : list alt) : Prop :=
+  forall l, In (Reqs l) alts ->
+    (forall s, In s l -> sreg s = true /\ out (sname s) (sscopes s) <> NA) ->
+    forall s e, In s l -> out (sname s) (sscopes s) <> Rej e.
+
+Lemma rejected_declared_prop out alts : rejected_declared out alts = false <-> none_rejected_declared out alts.
+Proof.
+  unfold none_rejected_declared. split.
+  - intros H l Hl Hall s e Hs E.
+    assert (T : rejected_declared out alts = true).
+    { unfold rejected_declared. apply existsb_exists. exists (Reqs l). split; [exact Hl|].
+      unfold presented_and_rejected. apply andb_true_iff. split.
+      - apply forallb_forall. intros s' Hs'. destruct (Hall s' Hs') as [R N]. rewrite R. cbn [andb].
+        destruct (out (sname s') (sscopes s')); [contradiction|reflexivity|reflexivity].
+      - apply existsb_exists. exists s. split; [exact Hs|]. now rewrite E. }
+    congruence.
+  - intro H. destruct (rejected_declared out alts) eqn:R; [|reflexivity]. exfalso.
+    unfold rejected_declared in R. apply existsb_exists in R. destruct R as (a & Ha & R).
+    destruct a as [|l]; [discriminate|]. unfold presented_and_rejected in R. apply andb_true_iff in R.
+    destruct R as [F X]. rewrite forallb_forall in F. apply existsb_exists in X. destruct X as (s & Hs & X).
+    destruct (out (sname s) (sscopes s)) as [| |e] eqn:E; try discriminate.
+    apply (H l Ha) with (s := s) (e := e); [|exact Hs|exact E].
+    intros s' Hs'. specialize (F s' Hs'). apply andb_true_iff in F. destruct F as [F1 F2]. split; [exact F1|].
+    intro N. rewrite N in F2. discriminate.
+Qed.
+
 (* what justifies a handler that read principal p and scopes sc *)
 Definition justified (out : oracle) (alts : list alt) (az : authorizer) (tr : list event)
            (p : option principal) (sc : list nat) : Prop :=
@@ -515,6 +576,7 @@ Definition justified (out : oracle) (alts : list alt) (az : authorizer) (tr : li
   | None =>
     In Anon alts /\ sc = [] /\
     (forall s scs e, In (AuthCalled s scs) tr -> out s scs <> Rej e) /\
+    none_rejected_declared out alts /\
     az_accepts az None = true
   end.
 
@@ -529,9 +591,10 @@ Proof.
       now apply same_set_prop.
     + intros [(l & Ha & S1 & S2 & S3) Az]. split; [|exact Az]. exists (Reqs l). split; [exact Ha|].
       apply satisfied_prop in S1. apply yields_prop in S2. apply same_set_prop in S3. now rewrite S1, S2, S3.
-  - rewrite !andb_true_iff, negb_true_iff, allows_anon_prop, rejected_in_prop. split.
-    + intros [[[A B] C] D]. destruct sc; [|discriminate]. auto.
-    + intros (A & -> & C & D). auto.
+  - unfold nothing_rejected.
+    rewrite !andb_true_iff, !negb_true_iff, allows_anon_prop, rejected_in_prop, rejected_declared_prop. split.
+    + intros [[[A B] [C C']] D]. destruct sc; [|discriminate]. auto.
+    + intros (A & -> & C & C' & D). split; [split; [split; [exact A|reflexivity]|split; [exact C|exact C']]|exact D].
 Qed.
 
 Lemma sec_ok_parts out alts az b tr :
@@ -540,7 +603,7 @@ Lemma sec_ok_parts out alts az b tr :
   (forall p sc, In (Handle p sc) tr -> handle_justified out alts az tr p sc = true) /\
   (In Bind tr -> admissible out alts az tr = true /\ (b = true -> exists p sc, In (Handle p sc) tr)) /\
   (~ In Bind tr -> (forall p sc, ~ In (Handle p sc) tr) /\
-                   exists c m, last tr Bind = Respond c m /\ response_ok out az tr c m = true).
+                   exists c m, last tr Bind = Respond c m /\ response_ok out alts az tr c m = true).
 Proof.
   intros N H. unfold sec_ok in H. destruct alts as [|a0 r0]; [contradiction|]. cbn [is_nil orb] in H.
   apply andb_true_iff in H. destruct H as [H H3]. apply andb_true_iff in H. destruct H as [H1 H2].
@@ -575,7 +638,8 @@ Qed.
 Definition admissible_prop (out : oracle) (alts : list alt) (az : authorizer) (tr : list event) : Prop :=
   (exists l, In (Reqs l) alts /\ fully_satisfied out l /\
              exists s q, In s l /\ out (sname s) (sscopes s) = Acc (Some q) /\ az_accepts az (Some q) = true)
-  \/ (In Anon alts /\ (forall s scs e, In (AuthCalled s scs) tr -> out s scs <> Rej e) /\ az_accepts az None = true).
+  \/ (In Anon alts /\ (forall s scs e, In (AuthCalled s scs) tr -> out s scs <> Rej e) /\
+      none_rejected_declared out alts /\ az_accepts az None = true).
 
 Lemma admissible_to_prop out alts az tr : admissible out alts az tr = true -> admissible_prop out alts az tr.
 Proof.
@@ -585,7 +649,9 @@ Proof.
     apply existsb_exists in E. destruct E as (s & Hs & E). destruct (out (sname s) (sscopes s)) as [|[q|]|] eqn:O; try discriminate.
     exists s, q. auto.
   - apply andb_true_iff in H. destruct H as [H Az]. apply andb_true_iff in H. destruct H as [A R].
-    apply negb_true_iff in R. split; [now apply allows_anon_prop|]. split; [now apply rejected_in_prop|exact Az].
+    unfold nothing_rejected in R. apply andb_true_iff in R. destruct R as [R R'].
+    apply negb_true_iff in R, R'. split; [now apply allows_anon_prop|]. split; [now apply rejected_in_prop|].
+    split; [now apply rejected_declared_prop|exact Az].
 Qed.
 
 (* neither parameter binding nor the handler runs for any other request, and the model never dereferences a nil route authenticator *)
@@ -602,31 +668,37 @@ Qed.
 
 (* every other request is refused: the response is the error of the scheme that rejected last, a 401 when no
    scheme rejected, or the authorizer's error (403 unless it carries a status) *)
-Definition refusal (out : oracle) (az : authorizer) (tr : list event) (c m : nat) : Prop :=
+Definition refusal (out : oracle) (alts : list alt) (az : authorizer) (tr : list event) (c m : nat) : Prop :=
   match az_called tr with
-  | Some p => exists f e, az = Some f /\ f p = Some e /\ c = code_of (az_error e) /\ m = msg_of e
+  | Some p => exists f e, az = Some f /\ f p = Some e /\ c = code_of (az_error e) /\ m = msg_of e /\
+                          (p = None -> (forall s scs e', In (AuthCalled s scs) tr -> out s scs <> Rej e') /\
+                                       none_rejected_declared out alts)
   | None => match last_rej out tr None with
             | Some e => c = code_of e /\ m = msg_of e
-            | None => c = 401
+            | None => c = 401 /\ none_rejected_declared out alts
             end
   end.
 
-Lemma response_ok_prop out az tr c m : response_ok out az tr c m = true -> refusal out az tr c m.
+Lemma response_ok_prop out alts az tr c m : response_ok out alts az tr c m = true -> refusal out alts az tr c m.
 Proof.
   unfold response_ok, expected_refusal, refusal. destruct (az_called tr) as [p|].
-  - destruct az as [f|]; [|discriminate]. destruct (f p) as [e|] eqn:F; [|discriminate]. intro H.
+  - destruct az as [f|]; [|discriminate]. destruct (f p) as [e|] eqn:F; [|discriminate].
+    destruct (is_some p || nothing_rejected out alts tr) eqn:G; [|discriminate]. intro H.
     apply andb_true_iff in H. destruct H as [H1 H2]. apply Nat.eqb_eq in H1, H2. exists f, e.
-    destruct e; cbn in *; auto.
-  - destruct (last_rej out tr None) as [e|]; intro H.
-    + apply andb_true_iff in H. destruct H as [H1 H2]. apply Nat.eqb_eq in H1, H2. auto.
-    + now apply Nat.eqb_eq in H.
+    split; [reflexivity|]. split; [exact F|]. split; [exact H1|]. split; [destruct e; exact H2|].
+    intros ->. cbn [is_some orb] in G. unfold nothing_rejected in G. apply andb_true_iff in G.
+    destruct G as [G1 G2]. apply negb_true_iff in G1, G2. split; [now apply rejected_in_prop|now apply rejected_declared_prop].
+  - destruct (last_rej out tr None) as [e|].
+    + intro H. apply andb_true_iff in H. destruct H as [H1 H2]. apply Nat.eqb_eq in H1, H2. auto.
+    + destruct (rejected_declared out alts) eqn:RD; [discriminate|]. intro H. apply Nat.eqb_eq in H.
+      split; [exact H|now apply rejected_declared_prop].
 Qed.
 
 Theorem refused_otherwise out alts az b :
   alts <> [] ->
   let tr := secure_handler out alts az b in
   ~ In Bind tr ->
-  (forall p sc, ~ In (Handle p sc) tr) /\ exists c m, last tr Bind = Respond c m /\ refusal out az tr c m.
+  (forall p sc, ~ In (Handle p sc) tr) /\ exists c m, last tr Bind = Respond c m /\ refusal out alts az tr c m.
 Proof.
   intros N tr Hn. destruct (sec_ok_parts _ _ _ _ _ N (secure_handler_satisfies_property out alts az b)) as (_ & _ & _ & R).
   destruct (R Hn) as [A (c & m & L & Ok)]. split; [exact A|]. exists c, m. split; [exact L|]. now apply response_ok_prop.
@@ -673,6 +745,24 @@ Proof.
   - destruct (IH Hin) as (a & Ha & P). exists a. split; [now right|exact P].
 Qed.
 
+Lemma Forall2_alt_perm_in_l alts alts' a :
+  Forall2 alt_perm alts alts' -> In a alts -> exists a', In a' alts' /\ alt_perm a a'.
+Proof.
+  induction 1 as [|x y l l' Hxy F IH]; intros Hin; [destruct Hin|].
+  destruct Hin as [<-|Hin].
+  - exists y. split; [now left|exact Hxy].
+  - destruct (IH Hin) as (a' & Ha & P). exists a'. split; [now right|exact P].
+Qed.
+
+Lemma none_rejected_declared_perm out alts alts' :
+  Forall2 alt_perm alts alts' -> none_rejected_declared out alts' -> none_rejected_declared out alts.
+Proof.
+  intros F H l Hl Hall s e Hs. destruct (Forall2_alt_perm_in_l _ _ _ F Hl) as (a' & Ha' & P).
+  destruct a' as [|l']; [destruct P|]. cbn in P. apply (H l' Ha').
+  - intros s' Hs'. apply Hall. eapply Permutation_in; [apply Permutation_sym; exact P|exact Hs'].
+  - eapply Permutation_in; [exact P|exact Hs].
+Qed.
+
 (* Whatever order the schemes of each alternative are evaluated in (alts' = the declared structure alts with every
    alternative permuted), a handler that runs is justified by the DECLARED structure: an alternative all of whose
    schemes accepted with a principal, one of which the handler reads, with that alternative's scopes; or the
@@ -693,8 +783,9 @@ Proof.
     + intro x. rewrite Sc. split; intro H.
       * eapply scopes_of_perm; [exact P|exact H].
       * eapply scopes_of_perm; [apply Permutation_sym; exact P|exact H].
-  - destruct J as (A & B & C & D). split; [|auto].
-    destruct (Forall2_alt_perm_in _ _ _ F A) as (a & Ha & P). destruct a; [exact Ha|destruct P].
+  - destruct J as (A & B & C & C' & D). split; [|split; [exact B|split; [exact C|split; [|exact D]]]].
+    + destruct (Forall2_alt_perm_in _ _ _ F A) as (a & Ha & P). destruct a; [exact Ha|destruct P].
+    + eapply none_rejected_declared_perm; [exact F|exact C'].
 Qed.
 
 (* the principal the handler reads is the one of the scheme evaluated last (so it does depend on the order when
@@ -714,7 +805,9 @@ Definition ex_out (tbl : list (nat * outcome)) : oracle :=
 Definition sq (n : nat) : sreq := mk_sreq n [] true.
 
 (* {s0: not applicable, s1: rejects} OR anonymous: [s0 s1] admits the anonymous request, [s1 s0] refuses with s1's error.
-   Both are allowed by the property (anonymous admits ONLY when no asked scheme rejected). *)
+   Both are allowed by the property: s0 finds no credentials, so the request does not present credentials for the
+   alternative (it does not apply); anonymous admits ONLY when no asked scheme rejected and no alternative whose
+   schemes ALL found credentials had one of them rejected (none_rejected_declared - order independent). *)
 Example anonymous_admission_depends_on_order :
   let out := ex_out [(0, NA); (1, Rej (EStatus 403 12))] in
   secure_handler out [Reqs [sq 0; sq 1]; Anon] None true = [AuthCalled 0 []; Bind; Handle None []; Respond 200 0] /\
@@ -857,3 +950,71 @@ Proof.
   cbv zeta. split; [|repeat split; reflexivity].
   constructor; [cbn; apply perm_swap|]. constructor; [cbn; apply Permutation_refl|constructor].
 Qed.
+
+(* ---------- the anonymous alternative and rejected credentials, for every evaluation order ---------- *)
+
+(* the handler runs for the nil principal only if no alternative for which the request presented all credentials
+   had a scheme rejecting them - whatever order the schemes are evaluated in, whether or not the rejecting scheme
+   was reached *)
+Theorem anonymous_only_if_nothing_rejected out alts alts' az b sc :
+  Forall2 alt_perm alts alts' -> alts <> [] ->
+  In (Handle None sc) (secure_handler out alts' az b) -> none_rejected_declared out alts.
+Proof.
+  intros F N Hin. pose proof (justified_in_every_order _ _ _ _ _ _ _ F N Hin) as J. cbn in J.
+  destruct J as (_ & _ & _ & J & _). exact J.
+Qed.
+
+(* an alternative whose schemes all found credentials, one of them rejecting, is reported: the request is refused
+   and the response is a rejecting scheme's error, never the bare 401 - in every evaluation order *)
+Example nil_principal_does_not_hide_a_rejection :
+  let out := ex_out [(0, Rej (EStatus 403 11)); (1, Acc None)] in
+  secure_handler out [Reqs [sq 1; sq 0]; Anon] None true = [AuthCalled 1 []; AuthCalled 0 []; Respond 403 11] /\
+  secure_handler out [Reqs [sq 0; sq 1]; Anon] None true = [AuthCalled 0 []; Respond 403 11] /\
+  sec_ok out [Reqs [sq 1; sq 0]; Anon] None true true [AuthCalled 1 []; Bind; Handle None []; Respond 200 0] = false /\
+  sec_ok out [Reqs [sq 1; sq 0]] None true true [AuthCalled 1 []; Respond 401 0] = false.
+Proof. repeat split; reflexivity. Qed.
+
+(* ---------- the library's authenticators over a table, and histories ---------- *)
+
+Lemma find_some_eq {A} (f : A -> bool) l x : find f l = Some x -> In x l /\ f x = true.
+Proof. apply find_some. Qed.
+
+(* a scheme accepts only a credential the table knows for THIS scheme, and a scope-checking scheme only when the
+   scopes required by THIS operation are all granted to it *)
+Theorem cred_oracle_accepts_only_granted scoped unk insuf grants creds s sc p :
+  cred_oracle scoped unk insuf grants creds s sc = Acc p ->
+  exists tok g, In (s, tok) creds /\ In g grants /\ g_scheme g = s /\ g_token g = tok /\ g_princ g = p /\
+                (scoped s = true -> forall x, In x sc -> In x (g_scopes g)).
+Proof.
+  unfold cred_oracle. destruct (find (fun c => Nat.eqb (fst c) s) creds) as [[s' tok]|] eqn:C; [|discriminate].
+  apply find_some in C. destruct C as [C1 C2]. cbn [fst] in C2. apply Nat.eqb_eq in C2. subst s'.
+  destruct (find (fun g => Nat.eqb (g_scheme g) s && Nat.eqb (g_token g) tok) grants) as [g|] eqn:G; [|discriminate].
+  apply find_some in G. destruct G as [G1 G2]. apply andb_true_iff in G2. destruct G2 as [G2 G3].
+  apply Nat.eqb_eq in G2, G3.
+  destruct (negb (scoped s) || subset sc (g_scopes g)) eqn:K; [|discriminate]. intro H. injection H as <-.
+  exists tok, g. repeat split; auto. intros Sc x Hx. rewrite Sc in K. cbn [negb orb] in K.
+  rewrite subset_spec in K. now apply K.
+Qed.
+
+(* every request of a history is answered from its own credentials alone and satisfies the property *)
+Theorem history_pointwise oracle_for ops az calls :
+  length (history oracle_for ops az calls) = length calls /\
+  forall i c, nth_error calls i = Some c ->
+    exists tr, nth_error (history oracle_for ops az calls) i = Some tr /\
+               tr = secure_handler (oracle_for (hq_creds c)) (nth (hq_op c) ops []) az (hq_bind c) /\
+               sec_ok (oracle_for (hq_creds c)) (nth (hq_op c) ops []) az (hq_bind c) true tr = true.
+Proof.
+  unfold history. split; [apply map_length|]. intros i c H.
+  eexists. split; [apply map_nth_error; exact H|]. split; [reflexivity|]. apply secure_handler_satisfies_property.
+Qed.
+
+(* a token accepted for the scopes of one operation is not thereby accepted for another operation *)
+Example scopes_checked_on_every_request :
+  let orc := cred_oracle (fun _ => true) (fun s => EStatus 401 (40 + s)) (fun s => EStatus 403 (50 + s))
+                         [mk_grant 0 1 (Some 7) [1]] in
+  history orc [[Reqs [mk_sreq 0 [1] true]]; [Reqs [mk_sreq 0 [2] true]]] None
+          [mk_hreq 0 [(0, 1)] true; mk_hreq 1 [(0, 1)] true; mk_hreq 0 [(0, 1)] true] =
+  [[AuthCalled 0 [1]; Bind; Handle (Some 7) [1]; Respond 200 0];
+   [AuthCalled 0 [2]; Respond 403 50];
+   [AuthCalled 0 [1]; Bind; Handle (Some 7) [1]; Respond 200 0]].
+Proof. reflexivity. Qed.
